@@ -83,6 +83,10 @@ def cases(ctx):
                 if d_ == 0:
                     continue
                 yield {"k": "sign", "key": "%064x" % d_, "compressed": True, "msg": mm.hex(), "mode": "k", "hash": hsh, "nonce": "%064x" % kk, "s_target": True}
+    # several threads deriving shared secrets for DIFFERENT key pairs at the same time
+    if ctx.shard % 8 == 5 or ctx.tier == "thorough":
+        prs = [(rkey(r), rkey(r)) for _ in range(6)]
+        yield {"k": "ecdh_threads", "pairs": [["%064x" % a_, "%064x" % b_] for a_, b_ in prs], "threads": 8, "iters": 4000 if ctx.tier == "thorough" else 600}
     # ECDH against crafted peer points (not derived from a private key): x just below p (>= the group order n), tiny x (leading zero
     # bytes in the secret), combined with private keys 1 / n-1 (the secret is then the peer's own x) and ordinary keys
     if ctx.shard % 4 == 0 or ctx.tier == "thorough":
@@ -120,6 +124,22 @@ def judge(ctx, case):
             ctx.viol("ECDH shared secret is not symmetric", {"ab": str(r1)[:200], "ba": str(r2)[:200]})
         if r1.get("ok") != exp:
             ctx.viol("ECDH shared secret differs from the reference x(a*B)", {"got": str(r1.get("ok", r1.get("err")))[:100], "exp": exp})
+        return
+    if case["k"] == "ecdh_threads":
+        ctx.hit("ecdh_concurrent_threads")
+        ctx.nontrivial()
+        items = []
+        for a_, b_ in case["pairs"]:
+            B_ = ec.mul_g(int(b_, 16))
+            items.append({"key": a_, "pub": ec.ser(B_, True).hex(), "exp": "%064x" % ec.mul(int(a_, 16), B_)[0]})
+        r_ = ctx.call({"op": "ecdh_mt", "items": items, "threads": case["threads"], "iters": case["iters"]}, watchdog=900)
+        ctx.ev()
+        if "ok" not in r_:
+            ctx.viol("concurrent ECDH derivation could not be executed", {"resp": str(r_)[:300]})
+        elif r_["ok"]["mismatches"]:
+            ctx.viol("ECDH shared secret differs from the reference when several threads derive for different key pairs at the same time", {"mismatches": r_["ok"]["mismatches"], "calls": r_["ok"]["calls"]})
+        else:
+            ctx.maxstat("concurrent_ecdh_calls_observed", r_["ok"]["calls"])
         return
     if case["k"] == "ecdh_pt":
         x0, d = int(case["x"], 16), int(case["d"], 16)
